@@ -63,19 +63,19 @@ func c14RealCapsRun(steps *int64) string {
 		script := []c14Op{
 			chunk(src(0), 8, 0), chunk(src(300), 200, 1), chunk(src(511), 255, 0), // 9th message of a full source: refused
 			chunk(src(512), 0, 0), // new source at the global cap: one of source 0's (oldest) entries is evicted
-			chunk(src(0), 8, 0), // source 0 is below its cap again: served (evicting another oldest entry)
-			chunk(src(5), 3, 1), // completes s005/3
-			chunk(src(5), 9, 0), // s005 served again, no eviction needed
-			chunk(src(7), 2, 0), // duplicate chunk
+			chunk(src(0), 8, 0),   // source 0 is below its cap again: served (evicting another oldest entry)
+			chunk(src(5), 3, 1),   // completes s005/3
+			chunk(src(5), 9, 0),   // s005 served again, no eviction needed
+			chunk(src(7), 2, 0),   // duplicate chunk
 			{Kind: c14Chunk, S: src(7), ID: 2, Idx: 1, Total: 3}, // other total for a pending id: dropped
 			{Kind: c14Bad, S: src(9), Bad: 0}, {Kind: c14Bad, S: src(9), Bad: 3}, {Kind: c14Bad, S: src(9), Bad: 4},
 			{Kind: c14Short, S: src(9)},
 			chunk(src(513), 1, 1), chunk(src(514), 1, 1), // two more evictions
-			{Kind: c14Tick},                             // 8.5 s: the first 256 sources are forgotten, the second half stays
+			{Kind: c14Tick},                            // 8.5 s: the first 256 sources are forgotten, the second half stays
 			chunk(src(0), 0, 0), chunk(src(100), 0, 0), // formerly full sources are served again
-			chunk(src(511), 8, 0), // s511 still has 8 pending: refused
-			chunk(src(300), 0, 1), // completes s300/0 half-way through its TTL
-			{Kind: c14Tick},        // 12.5 s: the second half is forgotten
+			chunk(src(511), 8, 0),                        // s511 still has 8 pending: refused
+			chunk(src(300), 0, 1),                        // completes s300/0 half-way through its TTL
+			{Kind: c14Tick},                              // 12.5 s: the second half is forgotten
 			chunk(src(511), 8, 0), chunk(src(511), 8, 1), // served and completed
 			{Kind: c14Tick}, {Kind: c14Tick}, {Kind: c14Tick},
 		}
